@@ -317,6 +317,83 @@ func c11model(c *Ctx, only map[string]string) {
 			}
 		}
 	}
+	// the count does not depend on how large it already is: on a tree whose counter (the integer
+	// field that follows Size() through two insertions) is preset to 2^40, six insertions and three
+	// deletions are counted exactly
+	if verdicts["size"].bad == "" && verdicts["no-panic"].unk == "" {
+		m.useVal = true
+		m.it.cmpOracle = nil
+		m.minCh, m.maxCh = 2, 4
+		mk := func() (oPtr, bool) {
+			res, why := m.it.Call(newTree, nil, []oval{oInt(2), oInt(4)}, 0)
+			if why != "" {
+				return oPtr{}, false
+			}
+			t, ok := res[0].(oPtr)
+			return t, ok && t.s != nil
+		}
+		sizeOf := func(t oPtr) (int64, bool) {
+			r, why := m.it.Call(size, t, nil, 0)
+			if why != "" {
+				return 0, false
+			}
+			n, ok := r[0].(oInt)
+			return int64(n), ok
+		}
+		obj := func(k int) oval { return oIface{dyn: oPtr{m.objs[k]}, styp: geomI} }
+		probe, ok := mk()
+		var counter []string
+		if ok {
+			track := map[string]bool{}
+			for _, f := range probe.s.order {
+				if _, isInt := probe.s.fields[f].(oInt); isInt {
+					track[f] = true
+				}
+			}
+			for step := 0; step <= 2 && ok; step++ {
+				n, okn := sizeOf(probe)
+				ok = okn
+				for f := range track {
+					if v, isInt := probe.s.fields[f].(oInt); !isInt || int64(v) != n {
+						delete(track, f)
+					}
+				}
+				if step < 2 {
+					if _, why := m.it.Call(ins, probe, []oval{obj(step)}, 0); why != "" {
+						ok = false
+					}
+				}
+			}
+			for f := range track {
+				counter = append(counter, f)
+			}
+		}
+		if ok && len(counter) == 1 {
+			const big = int64(1) << 40
+			t, ok := mk()
+			if ok {
+				t.s.fields[counter[0]] = oInt(big)
+				want := big
+				c.Evals(9)
+				for k := 0; k < 6 && ok; k++ {
+					if _, why := m.it.Call(ins, t, []oval{obj(k)}, 0); why != "" {
+						ok = false
+					}
+					want++
+				}
+				for k := 0; k < 3 && ok; k++ {
+					if r, why := m.it.Call(del, t, []oval{obj(2 * k)}, 0); why != "" {
+						ok = false
+					} else if b, isB := r[0].(oBool); isB && bool(b) {
+						want--
+					}
+				}
+				if n, okn := sizeOf(t); ok && okn && n != want {
+					bad("size", "a tree whose object count starts at 2^40 reports %d + 2^40 after six insertions and three deletions, not %d + 2^40: the count stops following the insertions at some size", n-big, want-big)
+				}
+			}
+		}
+	}
 	ruleOf := map[string]string{"parent-links": "C11.R2", "envelopes": "C11.R3", "balance": "C11.R1", "fan-out": "C11.R5", "size": "C11.R4", "delete": "C11.R4", "search": "C11.R6", "no-panic": "C11.R1"}
 	if only != nil {
 		ruleOf = only
